@@ -178,6 +178,12 @@ Definition prop_body (i : c08_input) (o : val) : bool :=
   | _ => false
   end.
 
+Fixpoint resend_safe_x (safe_always : bool) (ch : list Z) : bool :=
+  match ch with
+  | a :: (_ :: _) as rest => (is_dead_x a || safe_always) && resend_safe_x safe_always rest
+  | _ => true
+  end.
+
 (* topologies 1 / 2: every attempt is a cross attempt (the primary sub-cluster has no backend) *)
 Definition prop_body_x (i : c08_input) (o : val) : bool :=
   match o with
@@ -190,8 +196,7 @@ Definition prop_body_x (i : c08_input) (o : val) : bool :=
       (n <=? Z.min 20 (1 + retry_max c + cross_retry c))
       (* at most CrossRetry + 1 attempts, none when cross retry is disabled or no sub-cluster has a backend *)
       && (n <=? (if (i_topo i =? 2) || (cross_retry c <=? 0) then 0 else cross_retry c + 1))
-      && (fix rs (l : list Z) : bool :=
-            match l with a :: (_ :: _) as rest => (is_dead_x a || safe) && rs rest | _ => true end) ch
+      && resend_safe_x safe ch
       && (safe || (Z.of_nat (length saw) <=? 1))
       && list_Z_eqb saw (filter (fun b => negb (is_dead_x b)) ch)
       (* only backends of the other (non-blackhole) sub-cluster *)
